@@ -31,6 +31,14 @@ theorem flag_tests_sound :
     flags.closeReset false .npTrue = false ∧ flags.closeReset false .npFalse = false := by
   decide
 
+/-- … and these tests are applied unconditionally: the reader's test is a top-level statement
+    of `_read_file` (no version branch or other condition can skip it), and the guard in
+    `close()` depends on nothing but `self._write` and the flag (a writer's `close()` always
+    clears it, whatever the file holds). -/
+theorem flag_tests_unconditional :
+    flags.readWarnUnconditional = true ∧ flags.closeResetPure = true := by
+  decide
+
 /-- **Interrupted writers** (file-backed PT-TEMPO, or any other sequence of `set_*` calls in
     any order, with any number of MPO and cap tensors, on a fresh or an overwritten path):
     killed after `i` operations, before `close()` issued its first one, whatever survives is
